@@ -1428,6 +1428,19 @@ impl PeerConnection {
             None
         };
 
+        // Refuse a changed fingerprint before anything is applied: the re-INVITE handling and
+        // the signaling transition below must not run for a description that is rejected.
+        {
+            let dtls_started = self.inner.dtls_transport.lock().is_some();
+            if dtls_started && *self.inner.remote_dtls_fingerprint.lock() != remote_dtls_fingerprint
+            {
+                return Err(RtcError::InvalidState(
+                    "changing remote DTLS fingerprint after transport start is not supported"
+                        .into(),
+                ));
+            }
+        }
+
         let previous_remote = self.inner.remote_description.lock().clone();
         let media_parameters_changed = previous_remote.as_ref().is_none_or(|previous| {
             previous.session.connection != desc.session.connection
@@ -1457,13 +1470,6 @@ impl PeerConnection {
                     ));
                 }
                 _ => {}
-            }
-        }
-
-        // Update next_mid to avoid collisions with remote MIDs
-        for section in &desc.media_sections {
-            if let Ok(mid_val) = section.mid.parse::<u16>() {
-                self.inner.next_mid.fetch_max(mid_val + 1, Ordering::SeqCst);
             }
         }
 
@@ -1500,6 +1506,14 @@ impl PeerConnection {
                 SdpType::Rollback => {
                     return Err(RtcError::NotImplemented("rollback"));
                 }
+            }
+        }
+
+        // Update next_mid to avoid collisions with remote MIDs (only once the call has been
+        // accepted by the state machine: a rejected description must not move the counter)
+        for section in &desc.media_sections {
+            if let Ok(mid_val) = section.mid.parse::<u16>() {
+                self.inner.next_mid.fetch_max(mid_val + 1, Ordering::SeqCst);
             }
         }
 
